@@ -122,7 +122,7 @@ pub fn run(run: &mut Run) {
                 case_json(STREAM, ei as u64, vec![("easing", J::s(name)), ("x", J::F(x as f64)), ("x_bits", J::U(x.to_bits() as u64)), ("clause", J::s(clause))])
             };
             let mut prev: Option<(f32, f32)> = None;
-            let mut visit = |b: u32, acc: &mut Acc, prev: &mut Option<(f32, f32)>, st: &mut VarStat| {
+            let visit = |b: u32, acc: &mut Acc, prev: &mut Option<(f32, f32)>, st: &mut VarStat| {
                 let x = f32::from_bits(b);
                 let y = e.calc(x);
                 acc.eval();
